@@ -5,6 +5,7 @@ import (
 	"encoding/json"
 	"encoding/xml"
 	"fmt"
+	"io"
 	"math/rand/v2"
 	"mime/multipart"
 	"net/http"
@@ -266,6 +267,12 @@ func runC18(e *Env) {
 		})
 		t.AutoSample()
 		req := NewReqBody(method, path, ctype, body)
+		if chance(r, 1, 3) {
+			// a body of unknown length (chunked transfer / streamed by the client)
+			req.ContentLength = -1
+			req.Body = io.NopCloser(oneByteReader{bytes.NewReader(body)})
+			t.Count("roundtrip.unknown_content_length", 1)
+		}
 		if format == "query" {
 			req.URL.RawQuery = valuesOfA(a).Encode()
 		} else if chance(r, 1, 2) && (via == "Auto" || via == "Context.Bind") {
@@ -414,6 +421,13 @@ func runC18(e *Env) {
 		age := pick(r, []int{-3, 0, 1, 5})
 		name := pick(r, []string{"", "n", "bob"})
 		v := url.Values{"age": {strconv.Itoa(age)}, "name": {name}}
+		emptySource := (format == "form" || format == "query" || format == "multipart") && chance(r, 1, 4)
+		if emptySource {
+			// nothing at all in the selected source: the struct keeps its zero value, which the
+			// validator must still be asked about
+			age, name, v = 0, "", url.Values{}
+			t.Count("validation.empty_source", 1)
+		}
 		method, ctype := "POST", ""
 		var body []byte
 		switch format {
@@ -438,6 +452,8 @@ func runC18(e *Env) {
 		req := NewReqBody(method, "/p", ctype, body)
 		if format == "query" {
 			req.URL.RawQuery = v.Encode()
+		} else if emptySource {
+			req.URL.RawQuery = "age=9&name=query-does-not-count-for-body-methods"
 		}
 		defer binding.ResetValidator()
 		var got bindV
@@ -496,6 +512,8 @@ func runC18(e *Env) {
 	e.Require("validation.recording", 500)
 	e.Require("validation.stock", 300)
 	e.Require("validation.disabled", 300)
+	e.Require("validation.empty_source", 200)
+	e.Require("roundtrip.unknown_content_length", 500)
 }
 
 // jsonPrefixValid: the streaming decoder the documentation names (json.Decoder /
